@@ -31,7 +31,7 @@ def gen_schedules(n, seed, od, cfg="MiPageGen.cfg", module="MiPageGen", depth=80
 
 # guards of the step-level trace specification (StepTrace.tla); decisive for the properties that are about the delayed-free protocol
 STEP_GUARDS = {"StepContinuity", "RemoteSequence", "RemoteCas1", "DelayedPushOwn", "RemoteCas3", "CollectTakesAll", "UseDelayedShape",
-               "NeverOnlyOnAdoption", "WriteShape", "StoreNotStale", "RepushTaken", "RearmAfterDrain"}
+               "NeverOnlyOnAdoption", "HeapPublishedBeforeFlag", "NoHeapResetWhileFreeing", "WriteShape", "StoreNotStale", "RepushTaken", "RearmAfterDrain"}
 ABANDON_GUARDS = {"BitContinuity", "MarkWhenUnowned", "MarkNotTwice", "AbandonByOwner", "AdoptOwnId", "AdoptAfterWinning", "AdoptWhileOwned",
                   "CountFollowsBit", "CountContinuity", "FreedNotAbandoned", "WonSegmentsSettled"}
 NO_STEPS = {"pc"}        # programs whose executions are too long to log every atomic step
